@@ -2,6 +2,7 @@
    chart's behaviour.  Models: PmlStep.v (the emitted step process, as written, with one switch per confirmed
    deviation), Trie.v (static event-descriptor resolution), Fast.v (the interpreter's bit-array engine). *)
 From V Require Import Base NameMatch Chart Exec Large Interp Fast Trie TrieLemmas PmlStep PmlStepLemmas.
+From V Require Import LegalAbstract WfCore SerializeCodecLemmas PmlEquivBase PmlEquivExit PmlEquivCore PmlEquivEntry PmlEquivContent PmlEquivStep PmlEquivMicro PmlEquivExamples PmlEquivNames PmlEquivInit PmlEquivRun PmlEquivBehaviour PmlEquivRunEx.
 
 (* ---- the event trie -------------------------------------------------------------------------------- *)
 
@@ -159,3 +160,330 @@ Print Assumptions pml_declforrange_width_refuted.
 Theorem pml_declforrange_width_repaired : forall maxValue v, (v <= maxValue)%N -> (v < 2 ^ bit_width (maxValue + 1))%N.
 Proof. exact declforrange_width_repaired. Qed.
 Print Assumptions pml_declforrange_width_repaired.
+
+(* ==== the emitted step process against FastMicroStep, phase by phase (work package pml) ================== *)
+(* What is compared of the two traces inside a microstep is PmlEquivBase.pobs / fobs: the lines "Exiting",
+   "Processing transition", "Entering" and the log output of the emitted model against beforeExitingState,
+   beforeTakingTransition, beforeEnteringState and the log output of the interpreter -- the tokens pview and fview
+   keep inside a microstep.  Configurations, history, datamodel and queues are compared as values. *)
+
+(* U (every chart, every variant of the template, every event and store): the exit set the emitted
+   SELECT_TRANSITIONS accumulates (`exit_set |= transitions[i].exit_set`, then `& config`) and its target set are
+   the ones Fast.fselect_and_step computes from the selected transitions -- for a configuration without pseudo-states
+   (cfg_proper; every configuration of a run).  Not covered: which transitions are selected (pml_step_equiv_select_partial). *)
+Theorem pml_step_equiv_exit_set : forall pv c cfg ev sto,
+  cfg_proper c cfg = true ->
+  let a := fold_left (psel_one pv c cfg ev sto) (seq 0 (ntrans c))
+                     {| k_found := false; k_conf := []; k_target := []; k_exit := []; k_trans := [] |} in
+  set_inter (k_exit a) cfg =
+    fold_left (fun acc ti => set_union acc (exit_states_of lg_fixed c cfg (tr c ti))) (k_trans a) [] /\
+  k_target a = fold_left (fun acc ti => set_union acc (ft_targets (tr c ti))) (k_trans a) [].
+Proof. exact pml_exit_set_lemma. Qed.
+Print Assumptions pml_step_equiv_exit_set.
+
+(* ... and the restriction on the configuration cannot be dropped: a <history> index in the "configuration" is kept
+   by the engine's interval test, never by the static exit set of the emitted model *)
+Theorem pml_step_equiv_exit_set_improper_refuted :
+  exists pv c cfg ev sto,
+    let a := selected pv c cfg ev sto in
+    set_inter (k_exit a) cfg <>
+    fold_left (fun acc ti => set_union acc (exit_states_of lg_fixed c cfg (tr c ti))) (k_trans a) [].
+Proof. exact pml_exit_set_improper_refuted. Qed.
+Print Assumptions pml_step_equiv_exit_set_improper_refuted.
+
+(* U (every chart of the history-free core, wf_coreb): the static conflict table of the emitted model is
+   FastMicroStep's conflict matrix -- this discharges the third premise of pml_step_equiv_select_partial *)
+Theorem pml_step_equiv_conflict_table : forall c, wf_coreb c = true ->
+  forall i j, conflict_static c (tr c i) (tr c j) = fconflicts c (tr c i) (tr c j).
+Proof. exact conflict_static_core. Qed.
+Print Assumptions pml_step_equiv_conflict_table.
+
+(* U (every chart, with or without history; every configuration, exit set without the root, recorded history):
+   REMEMBER_HISTORY of the emitted model is Fast.fremember when the template uses the plain completions
+   (switch pv_hist_covered off); nothing else of the state changes, nothing visible is printed.  With an empty
+   configuration (the initial step) the history is left alone, as the engine skips REMEMBER_HISTORY then. *)
+Theorem pml_step_equiv_history : forall pv c, pv_hist_covered pv = false ->
+  forall exitset, mem 0 exitset = false -> forall s,
+  let s' := p_remember pv c exitset s in
+  p_hist s' = (if nonempty (p_cfg s) then fremember c (p_cfg s) exitset (p_hist s) else p_hist s) /\
+  pcore s' = pcore s /\ pobs_list c (p_out s') = pobs_list c (p_out s).
+Proof. exact pml_history_lemma. Qed.
+Print Assumptions pml_step_equiv_history.
+
+(* U (every chart of the history-free core, EVERY variant of the template, every ascending bounded target set, every
+   ancestor-closed configuration; the exit set lies below states of the closed target set all of whose active
+   descendants are exited -- which holds for the sets of a microstep, see pml_microstep_equiv): ESTABLISH_ENTRY_SET of
+   the emitted model (ancestor closure, descendant completion with direct children) is Fast.fentry_set (all
+   descendants).  Not covered: charts with <history> / <initial> pseudo-states (refuted below for nested histories). *)
+Theorem pml_step_equiv_entry_set : forall pv c, wf_coreb c = true ->
+  forall cfg exitset hist targets,
+  ssorted targets -> (forall g, In g targets -> g < nstates c) ->
+  (forall x, In x cfg -> x < nstates c) ->
+  (forall x a, In x cfg -> Anc (fun i => fs_parent (st c i)) a x -> In a cfg) ->
+  (forall x, In x exitset ->
+     In x cfg /\ exists d, In d (add_ancestors c targets) /\ Anc (fun i => fs_parent (st c i)) d x /\
+                          forall y, In y cfg -> Anc (fun i => fs_parent (st c i)) d y -> In y exitset) ->
+  forall ts s,
+  p_entry_set pv c cfg exitset hist targets ts s =
+    (fst (fentry_set c cfg exitset hist targets ts), snd (fentry_set c cfg exitset hist targets ts),
+     out (PEntrySet (fst (fentry_set c cfg exitset hist targets ts))) s) /\
+  es_inv c targets (fst (fentry_set c cfg exitset hist targets ts)).
+Proof. exact pml_entry_set_lemma. Qed.
+Print Assumptions pml_step_equiv_entry_set.
+
+(* outside the core the entry sets differ even for the repaired template: a <history> below the parent of a deep
+   <history> with a recorded value is added by the emitted model only (the branch is dead in FastMicroStep:
+   USCXML_STATE_HAS_HISTORY is never set there).  Only pseudo-states differ; no state is entered differently. *)
+Theorem pml_step_equiv_entry_set_history_refuted :
+  exists c cfg exitset hist targets s,
+    fst (fst (p_entry_set pml_repaired c cfg exitset hist targets [] s)) <> fst (fentry_set c cfg exitset hist targets []).
+Proof. exact entry_set_nested_history_refuted. Qed.
+Print Assumptions pml_step_equiv_entry_set_history_refuted.
+
+(* U (every element of executable content, nested <if> included; every state): an element that cannot fail
+   (instr_ok: declared variables only, no unsupported <send>, expressions inside the fragment) leaves datamodel,
+   queues (events by name) and log output of the emitted model as BasicContentExecutor leaves the interpreter's,
+   never touches configuration / history / flags -- unless a `chan` is full (p_full). *)
+Theorem pml_step_equiv_content : forall pv c iq eq dom, pv_in_reads_root pv = false ->
+  forall i s x, instr_ok dom i = true -> Rx c s x -> store_has dom (x_store x) -> guard_ok s ->
+    p_full (pexec_instr pv c iq eq i s) = false ->
+    exists x', exec_instr ex_fixed (inst_of c (p_cfg s)) i x = (true, x') /\ Rx c (pexec_instr pv c iq eq i s) x' /\
+               store_has dom (x_store x').
+Proof. exact sim_instr_all. Qed.
+Print Assumptions pml_step_equiv_content.
+
+(* the side conditions of the content theorem cannot be dropped *)
+Theorem pml_step_equiv_content_unsupported_send_refuted :
+  exists pv c iq eq i s x,
+    pv_in_reads_root pv = false /\ Rx c s x /\ guard_ok s /\ p_full (pexec_instr pv c iq eq i s) = false /\
+    ~ Rx c (pexec_instr pv c iq eq i s) (snd (exec_instr ex_fixed (inst_of c (p_cfg s)) i x)).
+Proof. exact content_unsupported_send_refuted. Qed.
+Print Assumptions pml_step_equiv_content_unsupported_send_refuted.
+Theorem pml_step_equiv_content_undeclared_variable_refuted :
+  exists pv c iq eq i s x,
+    pv_in_reads_root pv = false /\ Rx c s x /\ guard_ok s /\ p_full (pexec_instr pv c iq eq i s) = false /\
+    ~ Rx c (pexec_instr pv c iq eq i s) (snd (exec_instr ex_fixed (inst_of c (p_cfg s)) i x)).
+Proof. exact content_undeclared_variable_refuted. Qed.
+Print Assumptions pml_step_equiv_content_undeclared_variable_refuted.
+Theorem pml_step_equiv_queue_full_refuted :
+  exists pv c eq i s x,
+    pv_in_reads_root pv = false /\ instr_ok [] i = true /\ Rx c s x /\ guard_ok s /\
+    ~ Rx c (pexec_instr pv c 0 eq i s) (snd (exec_instr ex_fixed (inst_of c (p_cfg s)) i x)).
+Proof. exact queue_full_refuted. Qed.
+Print Assumptions pml_step_equiv_queue_full_refuted.
+
+(* U (every chart of the history-free core whose content cannot fail and whose <data> sit at the root (early binding);
+   every ascending bounded exit / transition / entry set, every ascending configuration with the root): EXIT_STATES,
+   TAKE_TRANSITIONS and ENTER_STATES of the emitted model exit, take and enter what Fast.fmicrostep does after
+   ESTABLISH_ENTRYSET, in the same order, with the same content, the same done.state events and the same
+   top-level-final flag, and end in the same configuration -- provided no `chan` was full. *)
+Theorem pml_step_equiv_exit_take_enter : forall pv c iq eq dom,
+  pv_in_reads_root pv = false -> wf_coreb c = true -> content_ok dom c = true ->
+  (forall i, i <> 0 -> fs_data (st c i) = []) ->
+  forall ex ts es s x initd,
+  ssorted ex -> bounded (nstates c) ex -> ssorted ts -> bounded (ntrans c) ts -> ssorted es -> bounded (nstates c) es ->
+  ssorted (p_cfg s) -> bounded (nstates c) (p_cfg s) -> In 0 (p_cfg s) -> mem 0 ex = false ->
+  (forall i, In i ex -> In i (p_cfg s)) ->
+  Rx c s x -> store_has dom (x_store x) -> p_fin s = p_tlf s ->
+  let s3 := fold_left (p_exit_one pv c iq eq ex) (rev (seq 0 (pn c))) s in
+  let s4 := fold_left (p_take_one pv c iq eq ts) (seq 0 (pnt c)) s3 in
+  let s5 := fold_left (p_enter_one pv c iq eq es ts) (seq 0 (pn c)) s4 in
+  let cx1 := fold_left (exit_one ex_fixed c) (rev ex) (p_cfg s, x) in
+  let x2 := fold_left (take_one ex_fixed c (fst cx1)) ts (snd cx1) in
+  let a := fold_left (fenter_one ex_fixed c ts) es {| ea_cfg := fst cx1; ea_initd := initd; ea_tlf := p_tlf s; ea_x := x2 |} in
+  p_full s5 = false ->
+  p_cfg s5 = ea_cfg a /\ Rx c s5 (ea_x a) /\ store_has dom (x_store (ea_x a)) /\
+  p_tlf s5 = ea_tlf a /\ p_fin s5 = ea_tlf a /\ p_hist s5 = p_hist s /\ p_spont s5 = p_spont s.
+Proof. exact phases_sim. Qed.
+Print Assumptions pml_step_equiv_exit_take_enter.
+
+(* U (every chart of the history-free core with content that cannot fail and early binding; every ancestor-closed
+   configuration with the root, every event or none, every datamodel state, history, queues): ONE d_step of the
+   emitted step process (SELECT_TRANSITIONS ... ENTER_STATES) against ONE Fast.fselect_and_step on corresponding
+   states [corr]: same configuration, history, datamodel, queues (by event name), top-level-final flag and visible
+   trace afterwards, and the new configuration is again ancestor-closed -- for the template with In() read correctly,
+   conditions parenthesised, plain history completions and the found-flag reset (four switches off; pml_repaired has
+   them off), when the guard literals decide the name matching (trie_guard_literals_correct) and no `chan` was full.
+   The SPONTANEOUS flags agree after a microstep; after a selection that found nothing the emitted model goes on to
+   dequeue while the engine, after an event, first selects event-less transitions once more (fix 626150f1).
+   Not covered: charts with <history>/<initial> pseudo-states, late binding, failing content, the initial step. *)
+Theorem pml_microstep_equiv : forall pv c iq eq dom,
+  pv_in_reads_root pv = false -> pv_cond_bare pv = false -> pv_hist_covered pv = false -> pv_found_stale pv = false ->
+  wf_coreb c = true -> content_ok dom c = true -> (forall i, i <> 0 -> fs_data (st c i) = []) ->
+  forall s l x evf,
+  corr c dom s l x -> cfg_ok c (l_cfg l) ->
+  (forall i e, i < ntrans c -> evf = Some e -> ft_spontaneous (tr c i) = false ->
+     resolved_match (guard_literals pv c i) (ev_name e) = name_match_impl nm_fixed (ft_event (tr c i)) (ev_name e)) ->
+  let s' := fst (pml_dstep pv c iq eq (option_map ev_name evf) s) in
+  let r := fselect_and_step ex_fixed c l x evf in
+  p_full s' = false ->
+  corr c dom s' (fst (fst r)) (snd (fst r)) /\ cfg_ok c (l_cfg (fst (fst r))) /\
+  (if nonempty (k_trans (selected pv c (l_cfg l) (option_map ev_name evf) (x_store x)))
+   then p_spont s' = true /\ l_spont (fst (fst r)) = true
+   else p_spont s' = false /\ l_spont (fst (fst r)) = match evf with Some _ => true | None => false end).
+Proof. exact pml_microstep_lemma. Qed.
+Print Assumptions pml_microstep_equiv.
+
+(* the premises of pml_microstep_equiv are satisfiable by a non-trivial object: w_exit_interval (a <parallel> with two
+   compound regions, a nested compound, two transitions, <raise> and <log>) after its initial step, event "go" *)
+Theorem pml_microstep_equiv_nonvacuous :
+  wf_coreb ex_chart = true /\ content_ok [] ex_chart = true /\ (forall i, i <> 0 -> fs_data (st ex_chart i) = []) /\
+  corr ex_chart [] ex_pstate ex_lstate ex_xstate /\ cfg_ok ex_chart (l_cfg ex_lstate) /\
+  (forall i e, i < ntrans ex_chart -> Some ex_event = Some e -> ft_spontaneous (tr ex_chart i) = false ->
+     resolved_match (guard_literals pml_repaired ex_chart i) (ev_name e) = name_match_impl nm_fixed (ft_event (tr ex_chart i)) (ev_name e)) /\
+  p_full (fst (pml_dstep pml_repaired ex_chart 7 13 (option_map ev_name (Some ex_event)) ex_pstate)) = false /\
+  nonempty (k_trans (selected pml_repaired ex_chart (l_cfg ex_lstate) (Some (ev_name ex_event)) (x_store ex_xstate))) = true.
+Proof. exact microstep_nonvacuous. Qed.
+Print Assumptions pml_microstep_equiv_nonvacuous.
+
+(* the whole-run statement behaviour_preserved is false also of the REPAIRED template: in a document without any
+   transition SELECT_TRANSITIONS prints no "Establishing optimal transition set for event" line
+   (`if (_transitions.size() > 0)`, ChartToPromela.cpp:1841), so a consumed event does not show in the trace of the
+   emitted model; states, content and configurations agree *)
+Theorem pml_step_equiv_repaired_no_transition_event_refuted : exists t fp ff, ~ behaviour_preserved pml_repaired t 7 13 fp ff.
+Proof. exact repaired_no_transition_event_refuted. Qed.
+Print Assumptions pml_step_equiv_repaired_no_transition_event_refuted.
+
+(* U (every chart of the history-free core with a compound root, early binding, content that cannot fail, <data>
+   expressions over ids declared before them): the FIRST iteration of the emitted step process (initial entry,
+   detected by the empty configuration; the datamodel was initialised in `init`) against the first step of
+   FastMicroStep (PRISTINE; the datamodel is initialised when <scxml> is entered): corresponding states afterwards,
+   dom being the declared ids. *)
+Theorem pml_initial_step_equiv : forall pv c iq eq,
+  pv_in_reads_root pv = false -> wf_coreb c = true -> fs_type (st c 0) = FCompound ->
+  content_ok (chart_dom c) c = true -> (forall i, i <> 0 -> fs_data (st c i) = []) ->
+  data_okb [] (fs_data (st c 0)) = true ->
+  let s' := fst (pml_iter pv c iq eq (p_init c)) in
+  let r := fast_step ex_fixed c l_pristine x_init in
+  p_full s' = false ->
+  corr c (chart_dom c) s' (fst (fst r)) (snd (fst r)) /\ cfg_ok c (l_cfg (fst (fst r))) /\
+  p_spont s' = true /\ l_spont (fst (fst r)) = true /\ l_init (fst (fst r)) = true /\
+  l_fin (fst (fst r)) = false /\ l_cancelled (fst (fst r)) = false /\ snd r = RC_MICROSTEPPED.
+Proof. exact pml_initial_step_lemma. Qed.
+Print Assumptions pml_initial_step_equiv.
+
+(* U (every chart whose content cannot fail; every ascending bounded configuration): TERMINATE_MACHINE of the emitted
+   model (the <onexit> handlers of the active states in reverse document order) against the engine's step with
+   TOP_LEVEL_FINAL set: same datamodel, queues and log output, the engine reports FINISHED. *)
+Theorem pml_terminate_equiv : forall pv c iq eq dom,
+  pv_in_reads_root pv = false -> content_ok dom c = true ->
+  forall s l x,
+  p_cfg s = l_cfg l -> Rx c s x -> store_has dom (x_store x) ->
+  p_tlf s = true -> p_fin s = true -> l_tlf l = true -> l_fin l = false ->
+  ssorted (l_cfg l) -> bounded (nstates c) (l_cfg l) ->
+  let s' := p_terminate pv c iq eq s in
+  let r := fast_step ex_fixed c l x in
+  p_full s' = false ->
+  Rx c s' (snd (fst r)) /\ p_cfg s' = l_cfg (fst (fst r)) /\ p_hist s' = p_hist s /\ l_hist (fst (fst r)) = l_hist l /\
+  l_fin (fst (fst r)) = true /\ snd r = RC_FINISHED.
+Proof. exact pml_terminate_lemma. Qed.
+Print Assumptions pml_terminate_equiv.
+
+(* U, partial (every document of the history-free core with early binding whose content cannot fail; EVERY bound on
+   the observed iterations of the emitted model's `do` loop): whole runs.  However the observation of the emitted
+   model ends -- bound reached, blocked on its empty queues, or terminated -- there is a bound for the interpreter's
+   driver loop (Interp.run_loop around FastMicroStep, no event handed in from outside, as in behaviour_preserved)
+   such that both end with the same configuration, history, datamodel, queues (by event name) and the same sequence
+   of exits, transitions, entries and log output; if the emitted model terminated the interpreter has FINISHED, if
+   it blocked the interpreter is IDLE.  One iteration of the emitted model is one to three steps of the engine (the
+   engine announces a stable configuration in a step of its own, and after an event that enabled nothing selects
+   event-less transitions once more).
+   Premises: the four switches of pml_microstep_equiv off (pml_repaired has them off); no `chan` of the emitted model
+   was full; P is a set of non-empty event names containing every name the content raises or sends and the done.state
+   names the template raises, and for the names in P the guard literals decide the name matching
+   (trie_guard_literals_correct supplies this for the names in the event trie).
+   What "partial" leaves out: documents with <history>/<initial> pseudo-states, late binding, content that can fail,
+   events handed in from outside, and the framing tokens of pview/fview (microstep brackets, event lines,
+   configurations as tokens -- the configurations are compared as values at the end; event lines are where
+   behaviour_preserved is false of the repaired template, see pml_step_equiv_repaired_no_transition_event_refuted). *)
+Theorem pml_run_equiv_partial : forall pv t iq eq (P : bytes -> Prop),
+  let c := flatten false t in
+  pv_in_reads_root pv = false -> pv_cond_bare pv = false -> pv_hist_covered pv = false -> pv_found_stale pv = false ->
+  wf_coreb c = true -> fs_type (st c 0) = FCompound -> content_ok (chart_dom c) c = true ->
+  data_okb [] (fs_data (st c 0)) = true ->
+  (forall e, P e -> e <> []) -> chart_names P c ->
+  (forall j, (is_par (ptype c j) = true \/
+              exists i, is_fin (ptype c i) = true /\ fs_parent (st c i) = Some j /\ mem 1 (fs_children (st c j)) = false) ->
+             P (done_name c j)) ->
+  (forall i name, P name -> i < ntrans c -> ft_spontaneous (tr c i) = false ->
+     resolved_match (guard_literals pv c i) name = name_match_impl nm_fixed (ft_event (tr c i)) name) ->
+  forall fuel s' r,
+  pml_loop pv c iq eq (S fuel) (p_init c) = (s', r) -> p_full s' = false -> r <> PFull ->
+  exists m l' x', run_loop c lstate (fast_step ex_fixed c) l_cfg m l_pristine x_init [] = (l', x') /\
+                  p_cfg s' = l_cfg l' /\ p_hist s' = l_hist l' /\ Rx c s' x' /\
+                  match r with
+                  | PTerminated => l_fin l' = true
+                  | PBlocked => fast_step ex_fixed c l' x' = (l', x', RC_IDLE)
+                  | _ => True
+                  end.
+Proof. exact pml_run_tree_lemma. Qed.
+Print Assumptions pml_run_equiv_partial.
+
+(* the premises of pml_run_equiv_partial hold for a non-trivial document (w_exit_interval: a <parallel> with two
+   compound regions, a nested compound, two transitions, <raise> and <log>), observed until it blocks *)
+Theorem pml_run_equiv_nonvacuous :
+  exists s' m l' x',
+    pml_loop pml_repaired ex_chart 7 13 30 (p_init ex_chart) = (s', PBlocked) /\
+    run_loop ex_chart lstate (fast_step ex_fixed ex_chart) l_cfg m l_pristine x_init [] = (l', x') /\
+    final_rel ex_chart PBlocked s' l' x'.
+Proof. exact run_instance. Qed.
+Print Assumptions pml_run_equiv_nonvacuous.
+
+(* U (every document of the history-free core with at least one transition, early binding, content that cannot fail;
+   EVERY pair of bounds fp, ff): the property itself.  behaviour_preserved -- a completely observed run of the emitted
+   model shows through pview exactly what the interpreter's run shows through fview: consumed events, microstep
+   brackets, exits, transitions, entries, log output, the configuration after every microstep, the completion --
+   holds for the repaired template (the four switches off), provided no `chan` of the emitted model was full at the end
+   of the observation, and for the event names in P the guard literals decide the name matching (premises as in
+   pml_run_equiv_partial).  "At least one transition" cannot be dropped
+   (pml_step_equiv_repaired_no_transition_event_refuted); the `chan` premise cannot be dropped
+   (pml_step_equiv_queue_full_refuted).
+   Not covered: documents with <history>/<initial> pseudo-states or a deep initial attribute, late binding, content
+   that can fail (the emitted Promela has no error events), events from outside, incomplete observations
+   (behaviour_prefix). *)
+Theorem pml_behaviour_preserved : forall pv t iq eq (P : bytes -> Prop) fp ff,
+  let c := flatten false t in
+  pv_in_reads_root pv = false -> pv_cond_bare pv = false -> pv_hist_covered pv = false -> pv_found_stale pv = false ->
+  wf_coreb c = true -> fs_type (st c 0) = FCompound -> content_ok (chart_dom c) c = true ->
+  data_okb [] (fs_data (st c 0)) = true ->
+  (forall e, P e -> e <> []) -> chart_names P c ->
+  (forall j, (is_par (ptype c j) = true \/
+              exists i, is_fin (ptype c i) = true /\ fs_parent (st c i) = Some j /\ mem 1 (fs_children (st c j)) = false) ->
+             P (done_name c j)) ->
+  (forall i name, P name -> i < ntrans c -> ft_spontaneous (tr c i) = false ->
+     resolved_match (guard_literals pv c i) name = name_match_impl nm_fixed (ft_event (tr c i)) name) ->
+  0 < ntrans c ->
+  p_full (fst (pml_loop pv c iq eq fp (p_init c))) = false ->
+  behaviour_preserved pv t iq eq fp ff.
+Proof. exact pml_behaviour_preserved_lemma. Qed.
+Print Assumptions pml_behaviour_preserved.
+
+(* an instance no computation gives: the document w_exit_interval, observed completely, against EVERY bound on the
+   interpreter's driver loop *)
+Theorem pml_behaviour_preserved_instance : forall ff, behaviour_preserved pml_repaired w_exit_interval 7 13 30 ff.
+Proof. exact behaviour_instance. Qed.
+Print Assumptions pml_behaviour_preserved_instance.
+
+(* U (same documents and premises, but no premise about the `chan`s: an observation that ran into its bound saw no
+   overflow; EVERY pair of bounds): behaviour_prefix -- what an observation of the emitted model cut by the step
+   bound shows (the iteration in progress left out) is a prefix of what the interpreter's complete run shows. *)
+Theorem pml_behaviour_prefix : forall pv t iq eq (P : bytes -> Prop) fp ff,
+  let c := flatten false t in
+  pv_in_reads_root pv = false -> pv_cond_bare pv = false -> pv_hist_covered pv = false -> pv_found_stale pv = false ->
+  wf_coreb c = true -> fs_type (st c 0) = FCompound -> content_ok (chart_dom c) c = true ->
+  data_okb [] (fs_data (st c 0)) = true ->
+  (forall e, P e -> e <> []) -> chart_names P c ->
+  (forall j, (is_par (ptype c j) = true \/
+              exists i, is_fin (ptype c i) = true /\ fs_parent (st c i) = Some j /\ mem 1 (fs_children (st c j)) = false) ->
+             P (done_name c j)) ->
+  (forall i name, P name -> i < ntrans c -> ft_spontaneous (tr c i) = false ->
+     resolved_match (guard_literals pv c i) name = name_match_impl nm_fixed (ft_event (tr c i)) name) ->
+  0 < ntrans c ->
+  behaviour_prefix pv t iq eq fp ff.
+Proof. exact pml_behaviour_prefix_lemma. Qed.
+Print Assumptions pml_behaviour_prefix.
+
+(* instance: every pair of bounds *)
+Theorem pml_behaviour_prefix_instance : forall fp ff, behaviour_prefix pml_repaired w_exit_interval 7 13 fp ff.
+Proof. exact prefix_instance. Qed.
+Print Assumptions pml_behaviour_prefix_instance.
